@@ -35,8 +35,10 @@ RULE = (
     "vs omega*(1 s + dUT1 step read from the table), TT conversion at 4 instants; (b) one VERIF_SEED-chosen day swept "
     "every minute, one hour and the last/first minutes of a day swept every second, half-second pairs; (c) ECI<->ECEF "
     "on radius x lat x lon x velocity x corner dates; (d) geodetic, SEZ, az/el<->ra/dec, RSW/NTW lattices; (e) "
-    "dayOfYear for every day 1896..2104, seconds2hms for every whole second of the day and every TAI offset of the "
-    "table, GMST/GAST lattices; (f) rot1/2/3, skewSymmetric, dotRot identities. non-trivial = date is a "
+    "dayOfYear for every day 1896..2104, seconds2hms for every TT value s+dAT+32.184 and s+dAT+33 (s = every whole "
+    "second of the day, dAT = every TAI offset of the table), utc2TerrestrialTime at every such whole-minute TT +-1 s, "
+    "every 10th second and every anomaly, GMST/GAST lattices; (f) rot1/2/3, skewSymmetric, dotRot identities; an "
+    "exception raised inside the implementation on a lattice input is a violation. non-trivial = date is a "
     "day/month/year/leap boundary (or the instant crosses a minute/hour/day roll-over in UT1 or TT), or the "
     "position/site lies on an axis, pole, equator or antimeridian, or (helpers) the argument sits on a branch point; "
     "distinct by construction (lattice points). VERIF_SEED only shifts the swept day/hour and the phase of the "
@@ -113,7 +115,7 @@ def _dates(tier, seed):
     d = _seed_day(seed, 1)
     out = list(CORNER_DATES) + [datetime(d.year, d.month, d.day, 17, 43, 21)]
     if tier == "thorough":
-        for k in range(2, 26):
+        for k in range(2, 60):
             d = _seed_day(seed, k)
             out.append(datetime(d.year, d.month, d.day, (k * 5) % 24, (k * 17) % 60, (k * 29) % 60))
         out += [datetime(y, 12, 31, 23, 59, 59) for y in range(2015, 2022)] + [datetime(y, 1, 1) for y in range(2015, 2023)]
@@ -533,6 +535,8 @@ def _run_seconds2hms(res, item):
         res.case("time/seconds2hms_whole_second", {"tt_seconds": tt, "dat": dat, "neg_second": neg}, ok, nontrivial=minute_edge,
                  signature="C04/tt_negative_second/seconds2hms" if neg else "C04/time/seconds2hms/whole_second",
                  observed=[h, mi, sec], expected=[tt // 3600, (tt % 3600) // 60, tt % 60], item=item)
+        if not (neg or not ok or minute_edge or tt % 60.0 in (1.0, 59.0) or s % 10 == 0 or tt >= 86399.0):
+            continue  # the TT conversion is driven at every minute edge +-1 s, every 10th second and every anomaly
         t = datetime(day.year, day.month, day.day) + timedelta(seconds=s, microseconds=816000)
         try:
             tt_s, ttt = tconv.utc2TerrestrialTime(t.year, t.month, t.day, t.hour, t.minute, t.second + 0.816, dat)
